@@ -58,11 +58,12 @@ type Obs struct {
 	Err   string   // constructor error ("" when none)
 	Cfg   Resolved // in-package resolved configuration
 
-	HasWire    bool     // the scripted transport was reached
-	Wire       Resolved // what it saw (Timeout = time left until the request deadline)
-	NoDeadline bool     // the request carried no deadline
-	Scheme     string   // not judged, part of the outcome only
-	BodyGzip   bool     // HTTP: the body starts with the gzip magic
+	HasWire    bool          // the scripted transport was reached
+	Wire       Resolved      // what it saw (Timeout = time left until the request deadline)
+	NoDeadline bool          // the request carried no deadline
+	Elapsed    time.Duration // real time from the start of Run until the seam saw the request (bounds how stale the deadline can be)
+	Scheme     string        // not judged, part of the outcome only
+	BodyGzip   bool          // HTTP: the body starts with the gzip magic
 	WireCalls  int
 }
 
@@ -268,10 +269,16 @@ func timeoutGroup(thorough bool) *Group {
 	return g
 }
 
-const (
-	defaultTimeout = 10 * time.Second
-	stallSlack     = 4 * time.Second // tolerated real time between "deadline computed" and "transport reached"
-)
+const defaultTimeout = 10 * time.Second
+
+var runStart time.Time
+
+// Left returns, from one clock reading, the time left until deadline and the real time elapsed
+// since the driver handed the current configuration point to Run.
+func Left(deadline time.Time) (left, elapsed time.Duration) {
+	now := time.Now()
+	return deadline.Sub(now), now.Sub(runStart)
+}
 
 // ---------------------------------------------------------------------------- cases
 
@@ -287,6 +294,29 @@ type run struct {
 	r      *enum.R
 	e      *Exporter
 	groups []*Group
+	// known minimal failing configurations per mismatching setting: a later point that
+	// contains one of them and fails on the same setting is folded into its key without being
+	// minimised again (the enumeration is simplest-first, so minimal ones come early)
+	known map[string][]knownMin
+}
+
+type knownMin struct {
+	c   kase
+	key string
+}
+
+// contains reports whether c has every non-absent alternative of min.
+func contains(c, min kase) bool {
+	for gi, mp := range min.picks {
+		if mp == nil || (mp.opt == 0 && mp.spec == 0 && mp.gen == 0) {
+			continue
+		}
+		p := c.picks[gi]
+		if p == nil || (mp.opt != 0 && p.opt != mp.opt) || (mp.spec != 0 && p.spec != mp.spec) || (mp.gen != 0 && p.gen != mp.gen) {
+			return false
+		}
+	}
+	return true
 }
 
 func (x *run) envName(g *Group, specific bool) string {
@@ -403,6 +433,7 @@ type mismatch struct {
 func (x *run) eval(c kase) (Obs, []mismatch) {
 	opts := x.apply(c)
 	x.r.Eval()
+	runStart = time.Now()
 	obs := func() (o Obs) {
 		defer func() {
 			if p := recover(); p != nil {
@@ -450,15 +481,16 @@ func (x *run) eval(c kase) (Obs, []mismatch) {
 			}
 			return
 		}
+		// The client computed the deadline (now + timeout) at some moment between the start of
+		// Run and the moment the seam saw the request, so the time left at the seam lies in
+		// [timeout - elapsed, timeout]: exact, independent of machine load.
 		switch {
 		case obs.NoDeadline:
 			bad("timeout", "request carries no deadline, reference timeout %v", want.Timeout)
 		case got.Timeout > want.Timeout:
 			bad("timeout", "request deadline %v away, reference timeout %v", got.Timeout, want.Timeout)
-		case got.Timeout <= want.Timeout-stallSlack:
-			// real time passed between the client computing the deadline and the transport
-			// seeing it: a loaded machine, not a verdict
-			x.r.Cap("wire timeout not judged for a case: harness stalled > " + stallSlack.String())
+		case got.Timeout < want.Timeout-obs.Elapsed-time.Millisecond:
+			bad("timeout", "request deadline only %v away %v after the start of the case, reference timeout %v", got.Timeout, obs.Elapsed, want.Timeout)
 		}
 	}
 	cmp("", obs.Cfg, false)
@@ -581,6 +613,17 @@ func (x *run) one(c kase) {
 		}
 		seen[m.setting] = true
 		here := x.r.Here()
+		folded := false
+		for _, km := range x.known[m.setting] {
+			if contains(c, km.c) {
+				x.r.Fail(km.key, nil, here, "")
+				folded = true
+				break
+			}
+		}
+		if folded {
+			continue
+		}
 		min := x.minimise(c, m.setting)
 		mobs, mmm := x.eval(min)
 		mk, mfull := x.describe(min, m.setting)
@@ -589,6 +632,10 @@ func (x *run) one(c kase) {
 		if mm2 := has(mmm, m.setting); mm2 != nil {
 			msg = mm2.msg
 		}
+		if x.known == nil {
+			x.known = map[string][]knownMin{}
+		}
+		x.known[m.setting] = append(x.known[m.setting], knownMin{min, m.setting + "|" + x.e.Name + "|" + mk})
 		x.r.Fail(m.setting+"|"+x.e.Name+"|"+mk,
 			map[string]any{"exporter": x.e.Name, "minimal_configuration": mfull, "resolved": mobs.Cfg, "wire": mobs.Wire, "reference": x.expect(min), "first_seen_in": ofull},
 			here, "%s with %s: %s", x.e.Name, mk, msg)
@@ -787,7 +834,7 @@ func (t *Transport) See(req *http.Request) {
 		o.Wire.Compression = ce
 	}
 	if dl, ok := req.Context().Deadline(); ok {
-		o.Wire.Timeout = time.Until(dl)
+		o.Wire.Timeout, o.Elapsed = Left(dl)
 	} else {
 		o.NoDeadline = true
 	}
